@@ -167,6 +167,13 @@ def run_tlc(spec, cfg, *, workdir, workers=16, env=None, simulate=None, depth=No
         pass
     if m:
         r.generated, r.distinct = int(m.group(1)), int(m.group(2))
+    elif simulate is not None:
+        # simulation mode reports walks, not a graph: count the generated states (no distinct count exists)
+        m = None
+        for m in re.finditer(r'The number of states generated: (\d+)', out):
+            pass
+        if m:
+            r.generated = int(m.group(1))
     m = re.search(r'depth of the complete state graph search is (\d+)', out)
     if m:
         r.depth = int(m.group(1))
